@@ -13,7 +13,7 @@ def lon_close(a, b, tol):
 def run(run):
     rng = run.rng
     run.do_ties()
-    quick = run.tier == "quick"
+    quick = run.quick
     # cells: random + through lookups on the antimeridian, at and around the poles
     look = []
     for r in range(0, 30):
